@@ -279,7 +279,8 @@ func TestBoundedC05RoundTripHTTP(t *testing.T) {
 				w.body = ""
 				out.SetStatus(erpc.NewStatus(w.code, "bad", "cause"))
 			}
-			if i%4 == 0 {
+			if i%4 == 0 || i%6 == 3 {
+				// every fourth frame, and every second error reply, goes through the gzip filter
 				out.XferPipe().Append('z')
 			}
 			if err := p.Pack(out); err != nil {
